@@ -5,7 +5,7 @@ Everything here is dual mode (pyvc.speclib): the same definitions are evaluated 
 exact rationals by the native bounded checks and on z3 terms by the VC generator.
 """
 from fractions import Fraction
-from pyvc.speclib import (isum, rsum, cnt, ite, implies, iff, And, Or, Not, forall, exists, length, isin, sqrt,
+from pyvc.speclib import (isum, rsum, cnt, ite, implies, iff, And, Or, Not, forall, exists, length, isin, sqrt, mkseq, mkset,
                           pow10, logb, absv, toreal, fdiv, maxv, minv, HAVE_Z3)
 
 AA20 = 'ACDEFGHIKLMNPQRSTVWY'
@@ -13,21 +13,25 @@ SEQ = 'localcider/backend/sequence.py'
 
 
 # ----------------------------------------------------------------------------- statement-level definitions
+POSC = 'KR+'      # positive: K, R (and the reduced-alphabet symbol '+' used internally by the delta-max search)
+NEGC = 'DE-'      # negative: D, E (and '-')
+
+
 def charge(c):
-    """q = +1 for K/R, -1 for D/E, 0 otherwise (C02, C07)"""
-    return ite(isin(c, 'KR'), 1, ite(isin(c, 'DE'), -1, 0))
+    """q = +1 for K/R, -1 for D/E, 0 otherwise (C02, C07); on the internal reduced alphabet '+' is +1 and '-' is -1"""
+    return ite(isin(c, POSC), 1, ite(isin(c, NEGC), -1, 0))
 
 
 def npos(s, lo, hi):
-    return cnt(lambda j: isin(s[j], 'KR'), lo, hi)
+    return cnt(lambda j: isin(s[j], POSC), lo, hi)
 
 
 def nneg(s, lo, hi):
-    return cnt(lambda j: isin(s[j], 'DE'), lo, hi)
+    return cnt(lambda j: isin(s[j], NEGC), lo, hi)
 
 
 def nneut(s, lo, hi):
-    return cnt(lambda j: Not(isin(s[j], 'KRDE')), lo, hi)
+    return cnt(lambda j: Not(isin(s[j], POSC + NEGC)), lo, hi)
 
 
 def sigma_of(p, n, L):
@@ -64,11 +68,30 @@ def is_aa(c):
     return isin(c, AA20)
 
 
+def is_res(c):
+    """a residue letter or one of the reduced-alphabet symbols + - 0"""
+    return isin(c, AA20 + '+-0')
+
+
 def valid_seq(s, N):
     return forall(lambda j: is_aa(s[j]), 0, N)
 
 
-SPEC = dict(charge=charge, npos=npos, nneg=nneg, nneut=nneut, sigma_of=sigma_of, sigma_seq=sigma_seq,
+def pattern_of(s):
+    """the charge pattern of a sequence (ndarray of +1/-1/0)"""
+    return mkseq(lambda j: charge(s[j]), length(s), 'int')
+
+
+def seq_inv(o):
+    """class invariant INV of backend Sequence objects (the part every analysis relies on)"""
+    f = o.fields if hasattr(o, 'fields') else o
+    s, n, cp = f['seq'], f['len'], f['chargePattern']
+    return And(n == length(s), n >= 1, forall(lambda j: is_res(s[j]), 0, n), length(cp) == n,
+               forall(lambda j: cp[j] == charge(s[j]), 0, n))
+
+
+SPEC = dict(is_res=is_res, pattern_of=pattern_of, seq_inv=seq_inv,
+            charge=charge, npos=npos, nneg=nneg, nneut=nneut, sigma_of=sigma_of, sigma_seq=sigma_seq,
             blob_sigma=blob_sigma, dform_upto=dform_upto, dform=dform, delta_spec=delta_spec, is_aa=is_aa,
             valid_seq=valid_seq, AA20=AA20)
 
@@ -97,12 +120,8 @@ def mk_sequence(alphabet='aa', dmax='any', prefix='self', nmin=1):
         o.fields['len'] = Sym(seq.n, 'int')
         jj = z3.Int('j!cp')
         cc = z3.Select(seq.arr, jj)
-        if alphabet == 'aa':
-            body = z3.If(z3.Or(cc == ord('K'), cc == ord('R')), z3.IntVal(1),
-                         z3.If(z3.Or(cc == ord('D'), cc == ord('E')), z3.IntVal(-1), z3.IntVal(0)))
-        else:
-            body = z3.If(z3.Or(cc == ord('K'), cc == ord('R'), cc == ord('+')), z3.IntVal(1),
-                         z3.If(z3.Or(cc == ord('D'), cc == ord('E'), cc == ord('-')), z3.IntVal(-1), z3.IntVal(0)))
+        body = z3.If(z3.Or(cc == ord('K'), cc == ord('R'), cc == ord('+')), z3.IntVal(1),
+                     z3.If(z3.Or(cc == ord('D'), cc == ord('E'), cc == ord('-')), z3.IntVal(-1), z3.IntVal(0)))
         o.fields['chargePattern'] = SSeq(LAM(jj, body), 0, seq.n, 'nd', 'int')
         if dmax == 'unset':
             o.fields['dmax'] = -1
@@ -113,6 +132,7 @@ def mk_sequence(alphabet='aa', dmax='any', prefix='self', nmin=1):
         o.fields['aminoAcidColorMap'] = Opaque('palette')
         o.fields['ComplexityObject'] = Obj(mod.SequenceComplexity, 'cx')
         return o
+    build.inv = 'seq_inv(self)'
     return build
 
 
@@ -328,3 +348,43 @@ def charge_norm(s, N, pH):
 
 
 SPEC.update(dict(charge_norm=charge_norm))
+
+
+# ----------------------------------------------------------------------------- C13: normalisation of sequence strings
+def is_space(c):
+    if HAVE_Z3:
+        from pyvc.values import SChar
+        from pyvc.models import isspace_code
+        from pyvc import ops as _ops
+        if isinstance(c, SChar):
+            return _ops.mk(isspace_code(c.e), 'bool')
+    return c.isspace()
+
+
+def n_aa(u, lo, hi):
+    return cnt(lambda j: is_aa(u[j]), lo, hi)
+
+
+def filtered_ok(r, u, k):
+    """r is the word of the amino-acid letters among u[0:k], in order:
+       |r| = #letters, and the letter at position j of u sits at position #letters-before-j of r"""
+    return And(length(r) == n_aa(u, 0, k),
+               forall(lambda j: implies(is_aa(u[j]), r[n_aa(u, 0, j)] == u[j]), 0, k))
+
+
+def upper_seq(s):
+    return mkseq(lambda j: upper_char(s[j]), length(s), 'char')
+
+
+SPEC.update(dict(is_space=is_space, n_aa=n_aa, filtered_ok=filtered_ok, upper_seq=upper_seq))
+
+DEFAULT_PALETTE = {'A': 'black', 'C': 'black', 'D': 'red', 'E': 'red', 'F': 'orange', 'G': 'green', 'H': 'green', 'I': 'black',
+                   'K': 'blue', 'L': 'black', 'M': 'black', 'N': 'green', 'P': 'fuchsia', 'Q': 'green', 'R': 'blue', 'S': 'green',
+                   'T': 'green', 'V': 'black', 'W': 'orange', 'Y': 'orange'}
+
+
+def palette_is_default(p):
+    return isinstance(p, dict) and p == DEFAULT_PALETTE
+
+
+SPEC.update(dict(DEFAULT_PALETTE=DEFAULT_PALETTE, palette_is_default=palette_is_default))
